@@ -22,8 +22,8 @@ IDS = ["a", "foo-bar", "x1", "%use", "b2-c"]          # %use: an escaped keyword
 STRINGS = ['"s"', '"a:b/c"', '"x-y"']
 VERSIONS = ["1.0.0", "0.2.1-rc.1", "1.2.3+b.7"]
 # package names / paths are single lexical tokens (as in WIT: no interior whitespace)
-PKGNAMES = ["foo:bar", "a:b:c"]
-PKGPATHS = ["foo:bar/baz", "a:b/c/d"]
+PKGNAMES = ["foo:bar", "a:b:c", "foo:bar-ext"]          # the last one has the first as a string prefix
+PKGPATHS = ["foo:bar/baz", "a:b/c/d", "foo:bar-ext/baz", "foo:barx/q"]
 
 GRAMMAR = r"""
 document  ::= package-decl statement*
